@@ -506,10 +506,12 @@ F19_SIG = "captcha-configured-differs-after-restore"
 class Verdicts:
     def __init__(self):
         self.classes = {}
+        self.programs = set()
 
     def bad(self, sig, what, ev):
         c = self.classes.setdefault(sig, {"n": 0, "what": what, "ev": ev})
         c["n"] += 1
+        self.programs.add(ev.get("p"))
 
     def flush(self, ctx, replays):
         real = 0
@@ -1026,8 +1028,20 @@ def run(ctx):
     if truncated and not nviol and not ctx.known_hits and not ctx.drifts:
         raise vlib.Inconclusive("programs left the model's path without any predicate failing: %s" % truncated[:3])
 
-    if not nviol and not rt.invariant_violated:
-        selftest(ctx, events)
+    # binding self-test on the programs no predicate complained about
+    clean, names = [], []
+    for e in events:
+        if e.get("ev") == "Reset":
+            keep = None
+            continue
+        if keep is None:
+            keep = e["p"] not in verd.programs and len(names) < 40
+            if keep:
+                names.append(e["p"])
+                clean.append({"ev": "Reset"})
+        if keep:
+            clean.append(e)
+    selftest(ctx, clean)
     ctx.assumptions += [
         "single voter: the not-leader / proxy-to-leader branches of handlePostConfig are not exercised; posts are issued one after another",
         "replicas are observer processes fed the copied raft log (FSM.Apply) or the newest snapshot (FSM.Restore) of the live node, not raft followers",
@@ -1089,6 +1103,9 @@ def selftest(ctx, events):
             break
     ctx.cov["binding_selftest"] = out
     if len(out) < 4 or not all(out.values()):
+        if ctx.violations:
+            ctx.note("binding self-test incomplete on a tree with violations: %s" % out)
+            return
         raise vlib.Inconclusive("binding self-test failed: %s" % out)
     if getattr(ctx, "selftest", False):
         ctx.log("selftest: %s" % out)
